@@ -646,3 +646,109 @@ func pureMemo(key, val ssa.Value) bool {
 	}
 	return ok(val, 0)
 }
+
+// ---------------------------------------------------------------- IMM3
+
+// IMM3: internal.Normalize is a function of its argument: neither it nor the
+// helpers it calls write into the value they were given (an element of the
+// caller's slice, an entry of the caller's map, a field through a pointer, a
+// reflect.Value.Set*). The normal form is built in fresh containers. Criteria
+// operands and update maps are passed through Normalize on every operation, so
+// an in-place "optimisation" rewrites the caller's query or map - shared
+// between goroutines - on every call.
+func ruleIMM3(c *Ctx) []Ob {
+	o := newObs(c, "IMM3")
+	norm := c.lookupFunc("internal", "Normalize")
+	if norm == nil {
+		o.add(UNDECIDED, "Normalize", "-", "internal.Normalize not found")
+		return o.list
+	}
+	var fns []*ssa.Function
+	for f := range c.staticReach(norm) {
+		if c.pkgRel(f) == "internal" || c.pkgRel(f) == "util" {
+			fns = append(fns, f)
+		}
+	}
+	sort.Slice(fns, func(i, j int) bool { return c.fname(fns[i]) < c.fname(fns[j]) })
+	// fromInput: v is (part of) what the function was given: reached from a parameter through
+	// type assertions, conversions, slicing, (reflect.Value).Interface and element/entry loads
+	var fromInput func(v ssa.Value, depth int, seen map[ssa.Value]bool) bool
+	fromInput = func(v ssa.Value, depth int, seen map[ssa.Value]bool) bool {
+		if v == nil || seen[v] || depth > 10 {
+			return false
+		}
+		seen[v] = true
+		for _, og := range origins(v) {
+			switch x := og.(type) {
+			case *ssa.Parameter:
+				return true
+			case *ssa.TypeAssert:
+				if fromInput(x.X, depth+1, seen) {
+					return true
+				}
+			case *ssa.Extract:
+				if fromInput(x.Tuple, depth+1, seen) {
+					return true
+				}
+			case *ssa.Slice:
+				if fromInput(x.X, depth+1, seen) {
+					return true
+				}
+			case *ssa.Call:
+				full := calleeFullName(x)
+				if strings.HasPrefix(full, "(reflect.Value).") && !strings.HasPrefix(full, "(reflect.Value).Len") {
+					// Interface(), Index(i), Elem(), MapIndex(k), Field(i): views of the receiver
+					if len(x.Common().Args) > 0 && fromInput(x.Common().Args[0], depth+1, seen) {
+						return true
+					}
+				}
+			case *ssa.UnOp:
+				if x.Op == token.MUL {
+					if ia, ok := x.X.(*ssa.IndexAddr); ok && fromInput(ia.X, depth+1, seen) {
+						return true
+					}
+				}
+			case *ssa.Lookup:
+				if fromInput(x.X, depth+1, seen) {
+					return true
+				}
+			}
+		}
+		return false
+	}
+	n := 0
+	for _, fn := range fns {
+		k := 0
+		rep := func(at ssa.Instruction, what string) {
+			k++
+			o.add(VIOLATED, fmt.Sprintf("%s/writes its input #%d", c.fname(fn), k), relPath(c, at.Pos()), "%s: Normalize rewrites the value it was given instead of building the normal form in a fresh container - the caller's criteria operand / update map is modified by every operation that uses it", what)
+		}
+		for _, b := range fn.Blocks {
+			for _, in := range b.Instrs {
+				switch x := in.(type) {
+				case *ssa.Store:
+					if ia, ok := x.Addr.(*ssa.IndexAddr); ok && fromInput(ia.X, 0, map[ssa.Value]bool{}) {
+						rep(x, "an element of the input slice is assigned")
+					}
+				case *ssa.MapUpdate:
+					if fromInput(x.Map, 0, map[ssa.Value]bool{}) {
+						rep(x, "an entry of the input map is assigned")
+					}
+				case ssa.CallInstruction:
+					full := calleeFullName(x)
+					if strings.HasPrefix(full, "(reflect.Value).Set") && len(x.Common().Args) > 0 && fromInput(x.Common().Args[0], 0, map[ssa.Value]bool{}) {
+						rep(x, "the input is modified through reflection ("+full+")")
+					}
+				}
+			}
+		}
+		n++
+		if k == 0 {
+			o.add(OK, c.fname(fn)+"/does not write its input", relPath(c, fn.Pos()), "no store into a slice, map or reflect.Value derived from a parameter")
+		}
+	}
+	if n == 0 {
+		o.add(UNDECIDED, "Normalize", "-", "nothing reachable from Normalize")
+	}
+	return o.list
+}
